@@ -111,6 +111,13 @@ def run(tier: str, seed: int) -> int:
                         for i in range(n):
                             recs.append(dict(op="hdd", kind=kind, elems=[dict(null=e["null"], g=e["g"]) for e in elems], i=i + 1, p=p,
                                              dg=digits(d[i], p, 2), raw=int(d[i])))
+                        # one-element arrays (slices): the default total bounds are the element's own box
+                        for i in range(0, n, 3):
+                            if elems[i]["null"] or geom.has_special(elems[i]):
+                                continue
+                            d1 = arr[i:i + 1].hilbert_distance(p=p)
+                            if len(d1) == 1:
+                                recs.append(dict(op="hdd", kind=kind, elems=[dict(null=False, g=elems[i]["g"])], i=1, p=p, dg=digits(d1[0], p, 2), raw=int(d1[0])))
                         continue
                     ctb = [aff.x(tb[0]), aff.y(tb[1]), aff.x(tb[2]), aff.y(tb[3])]
                     arg = container(ctb, (ti + p) % 5)
